@@ -57,6 +57,15 @@ def _(v):
     z = v.seq("charges", "int", lo=-4, hi=4, maxlen=5)
     if not v.symbolic:
         z = z[:len(b)] + [1] * (len(b) - len(z))
+        delta = v.choice("near_neutral_delta", [None, None, 0.0, 1e-3, 1e-9, 1e-12, 1e-15])
+        if delta is not None and len(b) >= 1:
+            # nearly charge-neutral compositions: pairs of opposite charges with molalities x and x(1+delta)
+            zz, bb = [], []
+            for bi, zi in zip(b, z):
+                zi = zi or 1
+                zz += [zi, -zi]
+                bb += [bi + 0.5, (bi + 0.5) * (1 + delta)]
+            b, z = bb, zz
     warn = v.bool("warn")
     n = len(b) if not v.symbolic else b.sym_len()
     v.assume(SP.conj([n == (len(z) if not v.symbolic else z.sym_len()), n >= 1]))
